@@ -566,3 +566,75 @@ Print Assumptions C07_spec_success_monotone.
 Theorem C07_total_example : total_example.
 Proof. exact total_example_holds. Qed.
 Print Assumptions C07_total_example.
+
+(* ------------------------------------------------------------------ *)
+(* B1: the whole-tree translation from C07's tree values to C02's writer input (coq/X27/Tr.v tr : val -> option cclass) and
+   the composed theorems (coq/X27/TrTheory.v).  [tr] covers: class skeleton (version, access flags, name, super class,
+   interfaces, Deprecated / Synthetic, Signature, SourceFile), fields (flags, name, descriptor, Deprecated / Synthetic,
+   Signature), methods (flags, name, descriptor, Deprecated / Synthetic, Exceptions, Signature, Code), Code (max_stack /
+   max_locals, the instruction list with labels, exception table with catch types, last label, LineNumberTable), and of
+   the instructions: all with a class / field / method reference operand, all without operand, conditional jumps, goto,
+   jsr.  It answers None for everything else (see the header of coq/X27/Tr.v). *)
+From Coq Require Import ZArith.
+From FB Require X27.Tr X27.TrTheory X27.TrEx.
+From FB Require C01.Model C01.Pool C01.Resolve C01.Mutf8 C01.Attr C01.Tables X12.BridgeDefs X12.BridgePool X12.BridgeClass.
+
+(* [tr] discharges the hypothesis code_views of C07_written_operands *)
+Theorem C07_tr_views : forall v t, X27.Tr.tr v = Some t -> code_views v t.
+Proof. exact X27.TrTheory.tr_views. Qed.
+Print Assumptions C07_tr_views.
+
+(* WRITE o REMAP read by C02's decoder, no hypothesis relating the two tree models: v a well-typed class, v' what the
+   interpreter of the regenerated table makes of it, t := tr v' *)
+Theorem C07_remap_write_decode :
+  forall (R : remapper) (v v' : val) (t : C02.Class.cclass) (cbytes : list N) (aux : C02.Class.class_aux),
+    has_ty type_defs (TName "ClassFile") v = true ->
+    remap_val gen_table R None (TName "ClassFile") v = Ok v' ->
+    X27.Tr.tr v' = Some t ->
+    C02.TheoryC8.cclass_ok t = true ->
+    C02.Class.write_class_aux t = C02.Class.WOK (cbytes, aux) ->
+    forall cp, C02.TheoryC1.agrees (C02.Class.a_pool aux) cp ->
+    forall j k i o, sub (insn_path j k) v = Some i -> op_ref i = Some o ->
+      exists o' w labs pos q,
+        remap_oref R o = Ok o' /\
+        nth_error (C02.Class.a_codes aux) j = Some (Some (w, labs, pos)) /\ nth_error pos k = Some q /\
+        written_at cp w q o'.
+Proof. exact X27.TrTheory.written_operands_tr. Qed.
+Print Assumptions C07_remap_write_decode.
+
+(* WRITE o REMAP read by C01's READER MODEL (through coq/X12).  [read_head] is the first part of C01's read_class (magic,
+   version gate, constant pool, head: C02_bridge_read_head_is_read_class); [plain_insn] is C01's second-pass instruction
+   decoder on the bytes of one instruction (C02_bridge_plain); [resolve_insn] C01's operand resolution.  From the written file
+   C01's reader reads the pool P; at the offset of instruction k of method j it decodes one instruction and resolves it in P to
+   XGen opcode [the class / field / method reference the remapper answers for the operand of instruction k of method j of the
+   ORIGINAL class] (+ the dimensions of multianewarray) — for answers C01's string decoder reads back unchanged
+   (oref_strs_ok: code points below 0x110000, no high surrogate directly followed by a low one: C02_bridge_mutf8). *)
+Theorem C07_remap_write_read :
+  forall (R : remapper) (v v' : val) (t : C02.Class.cclass) (cbytes : list N) (aux : C02.Class.class_aux),
+    has_ty type_defs (TName "ClassFile") v = true ->
+    remap_val gen_table R None (TName "ClassFile") v = Ok v' ->
+    X27.Tr.tr v' = Some t ->
+    C02.TheoryC8.cclass_ok t = true ->
+    C02.Class.write_class_aux t = C02.Class.WOK (cbytes, aux) ->
+    C01.Attr.header_ok C01.Tables.magic (Z.to_N (C02.Class.k_minor t)) (Z.to_N (C02.Class.k_major t)) = true ->
+    X12.BridgeClass.pool_utf8_ok C01.Mutf8.mutf8_dec (C02.Class.a_pool aux) = true ->
+    exists cs head rest,
+      X12.BridgeClass.read_head true C01.Mutf8.mutf8_dec cbytes
+      = Ok (Z.to_N (C02.Class.k_minor t), Z.to_N (C02.Class.k_major t), X12.BridgePool.rpool C01.Mutf8.mutf8_dec cs, head, rest) /\
+      forall j k i o, sub (insn_path j k) v = Some i -> op_ref i = Some o ->
+        exists o' w labs pos q,
+          remap_oref R o = Ok o' /\
+          nth_error (C02.Class.a_codes aux) j = Some (Some (w, labs, pos)) /\ nth_error pos k = Some q /\
+          (X27.TrTheory.oref_strs_ok o' ->
+           exists bs ins, C02.TheoryC10.bytes_at w q bs /\ X12.BridgeDefs.plain_insn bs = Some ins /\
+                          C01.Resolve.resolve_insn (X12.BridgePool.rpool C01.Mutf8.mutf8_dec cs) [] (C01.Model.map_insn Some ins)
+                          = Ok (X27.TrTheory.xinsn_of o')).
+Proof. exact X27.TrTheory.remap_write_read_c01. Qed.
+Print Assumptions C07_remap_write_read.
+
+(* non-vacuity: every hypothesis holds for a concrete class (getstatic, invokeinterface, new, pop, return; an exception range;
+   a line number) and ex_R; and C01's WHOLE reader model, computed on the bytes C02's writer model wrote for tr (remap v),
+   delivers getstatic x/Y.g:I; invokeinterface b/I.run()V; new x/Y; pop; return *)
+Theorem C07_tr_example : X27.TrEx.tr_example.
+Proof. exact X27.TrEx.tr_example_holds. Qed.
+Print Assumptions C07_tr_example.
